@@ -26,7 +26,7 @@ class C08(Prop):
         big = tier == "thorough"
         return gen_ir.Cfg(alphabet=ALPHA, unnamed=True, max_defs=9 if big else 7,
                           max_children=6 if big else 4, max_width=4 if big else 3,
-                          share=True, top="always", top_modes=["standalone", "definition"])
+                          share=True, late=True, top="always", top_modes=["standalone", "definition"])
 
     def strategy(self, tier):
         return gen_ir.recipes(self.cfg(tier))
